@@ -691,5 +691,444 @@ theorem timed_rate (es : List PriceEntry) (txns : List Txn) (tgt : String) (src 
       (ctxTimedEntry (makeCtx .txnTime txns (some tgt) (loadDb es)) ns src) :=
   timedCache_spec (loadDb es) (loadDb_sorted es) _ tgt src hsrc ns
 
+/-! ## 7. what `convert_prices` returns -/
+
+/-- the price entry `convert_prices_inner` applies to posting `p` of transaction `t` (`none`: posting unchanged):
+    empty commodity ⇒ none; otherwise cache lookup by the posting's commodity (+ binary search by the
+    transaction's instant under txn-time) -/
+def appliedEntry (cache : Cache) (tgt : String) (t : Txn) (p : Posting) : Option PriceEntry :=
+  if p.comm = "" then none else
+  match cache with
+  | .fixed m => fixedEntry m p.comm tgt
+  | .timed m => timedEntry m t.header.ts.ns p.comm
+
+def isTimed : Cache → Bool
+  | .timed _ => true
+  | .fixed _ => false
+
+/-- the value computed for a posting to which entry `e` is applied: amount × rate in the report commodity;
+    the rate is reported per posting only by the timed cache -/
+def valued (timed : Bool) (tgt : String) (p : Posting) (e : PriceEntry) : Outcome Converted :=
+  (Outcome.ofOption (Dec.mul p.amount e.rate)).map (fun a => ⟨p.acct, tgt, a, if timed then some e.rate else none⟩)
+
+theorem convertPosting_eq (cache : Cache) (tgt : String) (t : Txn) (p : Posting) :
+    convertPosting cache tgt t p =
+      match appliedEntry cache tgt t p with
+      | some e => valued (isTimed cache) tgt p e
+      | none => .ok (unchanged p) := by
+  unfold convertPosting appliedEntry valued
+  by_cases hc : p.comm = ""
+  · simp [hc]
+  · have hc' : (p.comm == "") = false := by simpa using hc
+    simp only [hc', Bool.false_eq_true, if_false, hc]
+    cases cache with
+    | fixed m =>
+      simp only [fixedEntry, isTimed]
+      cases mapGet m p.comm <;> simp
+    | timed m =>
+      simp only [timedEntry, isTimed]
+      cases mapGet m p.comm with
+      | none => simp
+      | some cc =>
+        simp only []
+        cases hsi : searchIdx cc t.header.ts.ns p.comm <;> simp
+
+/-- the entry applied under each lookup type satisfies the specification -/
+theorem appliedEntry_spec (es : List PriceEntry) (txns : List Txn) (tgt : String) (lk : PriceLookup)
+    (hlk : lk ≠ .none) (t : Txn) (p : Posting) (hc : p.comm ≠ "") (hu : p.comm ∈ usedCommodities txns tgt) :
+    RateAt (loadDb es) p.comm tgt (lookupPred lk t.header.ts.ns)
+      (appliedEntry (makeCtx lk txns (some tgt) (loadDb es)).cache tgt t p) := by
+  unfold appliedEntry
+  simp only [hc, if_false]
+  cases lk with
+  | none => exact absurd rfl hlk
+  | txnTime => exact timedCache_spec (loadDb es) (loadDb_sorted es) _ tgt p.comm hu _
+  | lastPrice => exact fixedCache_spec (loadDb es) (loadDb_sorted es) _ tgt none p.comm hu
+  | givenTime g => exact fixedCache_spec (loadDb es) (loadDb_sorted es) _ tgt (some g) p.comm hu
+
+theorem appliedEntry_unused (db : List PriceEntry) (txns : List Txn) (tgt : String) (lk : PriceLookup)
+    (t : Txn) (p : Posting) (hu : p.comm ∉ usedCommodities txns tgt) :
+    appliedEntry (makeCtx lk txns (some tgt) db).cache tgt t p = none := by
+  unfold appliedEntry
+  by_cases hc : p.comm = ""
+  · simp [hc]
+  · simp only [hc, if_false]
+    cases lk with
+    | none => simp [makeCtx, Ctx.default, fixedEntry, mapGet]
+    | txnTime => simp [makeCtx, timedEntry, timedCache_unused _ _ _ _ hu]
+    | lastPrice => simp [makeCtx, fixedEntry, fixedCache_unused _ _ _ _ _ hu]
+    | givenTime g => simp [makeCtx, fixedEntry, fixedCache_unused _ _ _ _ _ hu]
+
+/-- **convert_value**: for every price file, transaction set, lookup type, and every posting of the set:
+    a posting without commodity or already in the report commodity stays unchanged; any other posting is
+    valued `amount × rate` in the report commodity with `rate` = the entry given by the specification `RateAt`
+    (latest at or before the transaction's instant / strictly before the given instant / latest overall),
+    and stays unchanged when there is no such entry -/
+theorem convert_value (es : List PriceEntry) (txns : List Txn) (tgt : String) (lk : PriceLookup)
+    (hlk : lk ≠ .none) (t : Txn) (ht : t ∈ txns) (p : Posting) (hp : p ∈ t.posts) :
+    ((p.comm = "" ∨ p.comm = tgt) →
+        convertPosting (makeCtx lk txns (some tgt) (loadDb es)).cache tgt t p = .ok (unchanged p)) ∧
+    (p.comm ≠ "" → p.comm ≠ tgt →
+      ∃ r, RateAt (loadDb es) p.comm tgt (lookupPred lk t.header.ts.ns) r ∧
+        convertPosting (makeCtx lk txns (some tgt) (loadDb es)).cache tgt t p =
+          match r with
+          | some e => valued (decide (lk = .txnTime)) tgt p e
+          | none => .ok (unchanged p)) := by
+  constructor
+  · intro h
+    rw [convertPosting_eq]
+    have : appliedEntry (makeCtx lk txns (some tgt) (loadDb es)).cache tgt t p = none := by
+      rcases h with h | h
+      · simp [appliedEntry, h]
+      · apply appliedEntry_unused
+        intro hm
+        exact ((mem_usedCommodities txns tgt p.comm).mp hm).1 h
+    rw [this]
+  · intro h1 h2
+    have hu : p.comm ∈ usedCommodities txns tgt :=
+      (mem_usedCommodities txns tgt p.comm).mpr ⟨h2, t, ht, p, hp, rfl⟩
+    refine ⟨_, appliedEntry_spec es txns tgt lk hlk t p h1 hu, ?_⟩
+    rw [convertPosting_eq]
+    have : isTimed (makeCtx lk txns (some tgt) (loadDb es)).cache = decide (lk = .txnTime) := by
+      cases lk <;> simp [makeCtx, isTimed] at hlk ⊢
+    rw [this]
+
+/-- value layer of `valued`: the converted amount is exactly amount × rate -/
+theorem convert_value_units (timed : Bool) (tgt : String) (p : Posting) (e : PriceEntry) (c : Converted)
+    (h : valued timed tgt p e = .ok c) :
+    c.amount.units * (10:Int)^28 = p.amount.units * e.rate.units ∧ c.comm = tgt ∧ c.acct = p.acct := by
+  unfold valued at h
+  obtain ⟨a, ha, hc⟩ := (Outcome.map_ok _ _ _).mp h
+  cases hm : Dec.mul p.amount e.rate with
+  | none => simp [hm, Outcome.ofOption] at ha
+  | some a' =>
+    simp [hm, Outcome.ofOption] at ha
+    subst ha; subst hc
+    exact ⟨(Dec.mul_units _ _ _ hm).1, rfl, rfl⟩
+
+/-- conversion never fails with an error; it leaves the modelled domain only when amount × rate is not
+    exactly representable -/
+theorem convert_never_err (cache : Cache) (tgt : String) (t : Txn) (p : Posting) :
+    convertPosting cache tgt t p ≠ .err := by
+  rw [convertPosting_eq]
+  cases appliedEntry cache tgt t p with
+  | none => simp
+  | some e =>
+    unfold valued
+    cases hm : Dec.mul p.amount e.rate <;> simp [hm, Outcome.ofOption, Outcome.map]
+
+/-- **no_invented**: whenever conversion changes a posting (any posting, any transaction), the result is in
+    the report commodity and its amount is `amount × rate` for a rate that is *literally in the price file*
+    for the pair (posting's commodity → report commodity): no inverse rate, no chain through a third
+    commodity, no rate of another pair -/
+theorem no_invented (es : List PriceEntry) (txns : List Txn) (tgt : String) (lk : PriceLookup)
+    (t : Txn) (p : Posting) (c : Converted)
+    (h : convertPosting (makeCtx lk txns (some tgt) (loadDb es)).cache tgt t p = .ok c) (hch : c ≠ unchanged p) :
+    ∃ e ∈ es, e.base = p.comm ∧ e.target = tgt ∧ Dec.mul p.amount e.rate = some c.amount ∧
+      c.comm = tgt ∧ c.acct = p.acct ∧ p.comm ≠ "" ∧ p.comm ≠ tgt := by
+  rw [convertPosting_eq] at h
+  by_cases hu : p.comm ∈ usedCommodities txns tgt
+  · by_cases hc : p.comm = ""
+    · simp [appliedEntry, hc] at h; exact absurd h.symm hch
+    · by_cases hlk : lk = .none
+      · subst hlk
+        rw [appliedEntry_unused] at h
+        · simp at h; exact absurd h.symm hch
+        · -- with lookup none the cache is empty: treat through the generic lemma on an empty used set
+          exact absurd h (by
+            simp [appliedEntry, hc, makeCtx, Ctx.default, fixedEntry, mapGet] at h
+            exact absurd h.symm hch)
+      · have hspec := appliedEntry_spec es txns tgt lk hlk t p hc hu
+        cases ha : appliedEntry (makeCtx lk txns (some tgt) (loadDb es)).cache tgt t p with
+        | none => rw [ha] at h; simp at h; exact absurd h.symm hch
+        | some e =>
+          rw [ha] at h hspec
+          obtain ⟨hm, hb, ht', _, _⟩ := hspec
+          simp only at h
+          unfold valued at h
+          obtain ⟨a, hao, hcc⟩ := (Outcome.map_ok _ _ _).mp h
+          cases hmul : Dec.mul p.amount e.rate with
+          | none => simp [hmul, Outcome.ofOption] at hao
+          | some a' =>
+            simp [hmul, Outcome.ofOption] at hao
+            subst hao; subst hcc
+            exact ⟨e, loadDb_subset es e hm, hb, ht', hmul, rfl, rfl, hc,
+              ((mem_usedCommodities txns tgt p.comm).mp hu).1⟩
+  · rw [appliedEntry_unused _ _ _ _ _ _ hu] at h
+    simp at h; exact absurd h.symm hch
+
+/-- without a report commodity or with lookup `none` nothing is converted -/
+theorem no_conversion (txns : List Txn) (db : List PriceEntry) (t : Txn) :
+    (∀ lk, convertPrices (makeCtx lk txns none db) t = .ok (t.posts.map unchanged)) ∧
+    (∀ rc, convertPrices (makeCtx .none txns rc db) t = .ok (t.posts.map unchanged)) := by
+  constructor
+  · intro lk; simp [makeCtx, Ctx.default, convertPrices]
+  · intro rc; cases rc <;> simp [makeCtx, Ctx.default, convertPrices]
+
+theorem mapO_ok {α β} (f : α → Outcome β) : ∀ (l : List α) (bs : List β),
+    mapO f l = .ok bs → bs.length = l.length ∧ ∀ ab ∈ l.zip bs, f ab.1 = .ok ab.2 := by
+  intro l
+  induction l with
+  | nil => intro bs h; simp [mapO] at h; subst h; simp
+  | cons a t ih =>
+    intro bs h
+    simp only [mapO] at h
+    split at h
+    · rename_i b hfa
+      split at h
+      · rename_i bs' hm
+        cases h
+        obtain ⟨hl, hz⟩ := ih bs' hm
+        refine ⟨by simp [hl], ?_⟩
+        intro ab hab
+        simp only [List.zip_cons_cons, List.mem_cons] at hab
+        rcases hab with rfl | hab
+        · exact hfa
+        · exact hz ab hab
+      · cases h
+      · cases h
+    · cases h
+    · cases h
+
+/-- `convert_prices` converts posting by posting, in order, same number of postings -/
+theorem convertPrices_pointwise (lk : PriceLookup) (txns : List Txn) (tgt : String) (db : List PriceEntry)
+    (t : Txn) (cs : List Converted) (hlk : lk ≠ .none)
+    (h : convertPrices (makeCtx lk txns (some tgt) db) t = .ok cs) :
+    cs.length = t.posts.length ∧
+      ∀ pc ∈ t.posts.zip cs, convertPosting (makeCtx lk txns (some tgt) db).cache tgt t pc.1 = .ok pc.2 := by
+  have hin : (makeCtx lk txns (some tgt) db).inCommodity = some tgt := by
+    cases lk <;> simp [makeCtx] at hlk ⊢
+  unfold convertPrices at h
+  rw [hin] at h
+  exact mapO_ok _ _ _ h
+
+/-! ## 8. metadata (fixed lookups) -/
+
+theorem mem_sortByKey {β} (m : List (String × β)) (x : String × β) : x ∈ sortByKey m ↔ x ∈ m := by
+  unfold sortByKey; exact List.mem_mergeSort
+
+theorem sortByKey_strict {β} (m : List (String × β)) (h : (keys m).Nodup) :
+    (sortByKey m).Pairwise (fun a b => a.1 < b.1) := by
+  have hle : (sortByKey m).Pairwise (fun a b => decide (a.1 ≤ b.1) = true) := by
+    unfold sortByKey
+    apply List.pairwise_mergeSort
+    · intro a b c h1 h2
+      simp only [decide_eq_true_eq] at h1 h2 ⊢
+      exact String.le_trans h1 h2
+    · intro a b
+      simp only [Bool.or_eq_true, decide_eq_true_eq]
+      exact String.le_total a.1 b.1
+  have hnd : (keys (sortByKey m)).Nodup := by
+    unfold keys sortByKey
+    exact ((List.mergeSort_perm m _).map _).nodup_iff.mpr h
+  have hne : (sortByKey m).Pairwise (fun a b => a.1 ≠ b.1) := by
+    unfold keys at hnd
+    exact (List.pairwise_map.mp hnd)
+  refine (List.Pairwise.and hle hne).imp ?_
+  intro a b ⟨h1, h2⟩
+  have h1' : a.1 ≤ b.1 := by simpa using h1
+  exact String.not_le.mp (fun hba => h2 (String.le_antisymm h1' hba))
+
+theorem fixedCache_keys_nodup (used : List String) (tgt : String) (bound : Option Int) (db : List PriceEntry) :
+    (keys (fixedCache used tgt bound db)).Nodup := by
+  unfold fixedCache
+  exact keys_foldl_nodup _ [] (by simp [keys])
+
+/-- **metadata_true**: under the fixed lookups (`last-price`, `given-time`) the metadata records are exactly the
+    (time, source commodity, rate, report commodity) of the price entries that `convert_prices` applies to some
+    posting of the transaction set; every source commodity appears once, in name order.
+    Hypothesis: price entries have a non-empty base commodity (guaranteed by the price-file grammar). -/
+theorem metadata_true (es : List PriceEntry) (hwf : ∀ e ∈ es, e.base ≠ "") (txns : List Txn) (tgt : String)
+    (lk : PriceLookup) (hlk : lk = .lastPrice ∨ ∃ g, lk = .givenTime g) :
+    (∀ r : PriceRecord, r ∈ metadata (makeCtx lk txns (some tgt) (loadDb es)) ↔
+      ∃ e, ∃ t ∈ txns, ∃ p ∈ t.posts,
+        appliedEntry (makeCtx lk txns (some tgt) (loadDb es)).cache tgt t p = some e ∧
+        r = ⟨some e.ns, e.base, some e.rate, tgt⟩) ∧
+    (metadata (makeCtx lk txns (some tgt) (loadDb es))).Pairwise (fun a b => a.source < b.source) := by
+  -- both fixed lookups have the same shape: a fixed cache with some bound
+  obtain ⟨bound, hctx⟩ : ∃ bound, makeCtx lk txns (some tgt) (loadDb es) =
+      ⟨.fixed (fixedCache (usedCommodities txns tgt) tgt bound (loadDb es)), some tgt⟩ := by
+    rcases hlk with rfl | ⟨g, rfl⟩
+    · exact ⟨none, rfl⟩
+    · exact ⟨some g, rfl⟩
+  rw [hctx]
+  generalize hm : fixedCache (usedCommodities txns tgt) tgt bound (loadDb es) = m
+  have hnd : (keys m).Nodup := by rw [← hm]; exact fixedCache_keys_nodup _ _ _ _
+  constructor
+  · intro r
+    simp only [metadata, List.mem_map, mem_sortByKey, appliedEntry]
+    constructor
+    · rintro ⟨⟨k, ns, rate⟩, hkv, rfl⟩
+      have hget : mapGet m k = some (ns, rate) := (mem_iff_mapGet m hnd k (ns, rate)).mp hkv
+      have hused : k ∈ usedCommodities txns tgt := by
+        refine Classical.byContradiction (fun hn => ?_)
+        rw [← hm, fixedCache_unused _ _ _ _ _ hn] at hget
+        cases hget
+      obtain ⟨_, t, ht, p, hp, hpc⟩ := (mem_usedCommodities txns tgt k).mp hused
+      have hspec := fixedCache_spec (loadDb es) (loadDb_sorted es) (usedCommodities txns tgt) tgt bound k hused
+      rw [hm] at hspec
+      simp only [fixedEntry, hget, Option.map_some] at hspec
+      have hk : k ≠ "" := by
+        have := hwf _ (loadDb_subset es _ hspec.1)
+        simpa using this
+      refine ⟨⟨ns, k, rate, tgt⟩, t, ht, p, hp, ?_, rfl⟩
+      simp [hpc, hk, fixedEntry, hget]
+    · rintro ⟨e, t, ht, p, hp, happ, rfl⟩
+      by_cases hc : p.comm = ""
+      · simp [hc] at happ
+      · simp only [hc, if_false, fixedEntry] at happ
+        cases hget : mapGet m p.comm with
+        | none => simp [hget] at happ
+        | some c =>
+          simp only [hget, Option.map_some, Option.some.injEq] at happ
+          subst happ
+          exact ⟨(p.comm, c), (mem_iff_mapGet m hnd p.comm c).mpr hget, rfl⟩
+  · simp only [metadata]
+    exact List.pairwise_map.mpr ((sortByKey_strict m hnd).imp (fun h => h))
+
+/-- corollary: every record of the metadata satisfies the specification `RateAt` for its source commodity -/
+theorem metadata_rateAt (es : List PriceEntry) (txns : List Txn) (tgt : String)
+    (lk : PriceLookup) (hlk : lk = .lastPrice ∨ ∃ g, lk = .givenTime g) (r : PriceRecord)
+    (hr : r ∈ metadata (makeCtx lk txns (some tgt) (loadDb es))) :
+    ∃ e, RateAt (loadDb es) r.source tgt (lookupPred lk 0) (some e) ∧
+      r = ⟨some e.ns, e.base, some e.rate, tgt⟩ ∧ r.source ∈ usedCommodities txns tgt := by
+  obtain ⟨bound, hctx, hpred⟩ : ∃ bound, makeCtx lk txns (some tgt) (loadDb es) =
+      ⟨.fixed (fixedCache (usedCommodities txns tgt) tgt bound (loadDb es)), some tgt⟩ ∧
+      lookupPred lk 0 = boundPred bound := by
+    rcases hlk with rfl | ⟨g, rfl⟩
+    · exact ⟨none, rfl, rfl⟩
+    · exact ⟨some g, rfl, rfl⟩
+  rw [hctx] at hr
+  rw [hpred]
+  simp only [metadata, List.mem_map, mem_sortByKey] at hr
+  obtain ⟨⟨k, ns, rate⟩, hkv, rfl⟩ := hr
+  have hnd := fixedCache_keys_nodup (usedCommodities txns tgt) tgt bound (loadDb es)
+  have hget := (mem_iff_mapGet _ hnd k (ns, rate)).mp hkv
+  have hused : k ∈ usedCommodities txns tgt := by
+    refine Classical.byContradiction (fun hn => ?_)
+    rw [fixedCache_unused _ _ _ _ _ hn] at hget
+    cases hget
+  have hspec := fixedCache_spec (loadDb es) (loadDb_sorted es) (usedCommodities txns tgt) tgt bound k hused
+  simp only [fixedEntry, hget, Option.map_some] at hspec
+  exact ⟨⟨ns, k, rate, tgt⟩, hspec, rfl, hused⟩
+
+/-! ## 9. non-vacuity and regression witnesses
+
+A concrete price file in arbitrary order: three `USD → EUR` entries (instants 10, 20, 30), a duplicate key at
+instant 10 (the first in file order wins), the inverse pair `EUR → USD`, a chain `ACME → GBP → EUR`, and a self
+rate `EUR → EUR` (F10).  Transactions at instants 9, 20 and 25. -/
+namespace Ex
+
+def d (n : Int) : Dec := Dec.ofInt n
+def hdr (ns : Int) : Header := ⟨⟨ns, 0⟩, none, none, none, none, none, none⟩
+def post (a : String) (n : Int) (c : String) : Posting := ⟨[a], c, d n, d n, false, c, none⟩
+
+def file : List PriceEntry := [
+  ⟨30, "USD", d 4, "EUR"⟩, ⟨10, "USD", d 2, "EUR"⟩, ⟨20, "EUR", d 7, "USD"⟩, ⟨20, "USD", d 3, "EUR"⟩,
+  ⟨5, "EUR", d 2, "EUR"⟩, ⟨15, "ACME", d 9, "GBP"⟩, ⟨15, "GBP", d 8, "EUR"⟩, ⟨10, "USD", d 6, "EUR"⟩]
+
+def db : List PriceEntry := [
+  ⟨5, "EUR", d 2, "EUR"⟩, ⟨10, "USD", d 2, "EUR"⟩, ⟨15, "ACME", d 9, "GBP"⟩, ⟨15, "GBP", d 8, "EUR"⟩,
+  ⟨20, "EUR", d 7, "USD"⟩, ⟨20, "USD", d 3, "EUR"⟩, ⟨30, "USD", d 4, "EUR"⟩]
+
+def t0 : Txn := ⟨hdr 9, [post "a" 1 "USD", post "b" (-1) "USD"]⟩
+def t1 : Txn := ⟨hdr 20, [post "a" 10 "USD", post "b" (-10) "USD"]⟩
+def t2 : Txn := ⟨hdr 25, [post "c" 5 "EUR", post "e" 1 "ACME", post "f" 1 ""]⟩
+def txns : List Txn := [t0, t1, t2]
+
+/-- sorted by (instant, base, target); of the two entries with key (10, USD, EUR) the first in file order stays -/
+theorem load_file : loadDb file = db := by
+  simp [loadDb, file, db, List.mergeSort, entryLe, dedup, dedupFrom, entryEq, d, Dec.ofInt]
+
+/-- the hypotheses of `db_order_free` / `loadDb_perm_of_distinct` / `metadata_true` are satisfiable -/
+example : DistinctKeys (file.take 7) := by unfold DistinctKeys; decide
+example : ∀ e ∈ file, e.base ≠ "" := by decide
+example : loadDb (file.take 7) = loadDb (file.take 7).reverse :=
+  db_order_free _ _ (List.reverse_perm _).symm (by unfold DistinctKeys; decide)
+
+theorem usd_used : "USD" ∈ usedCommodities txns "EUR" :=
+  (mem_usedCommodities txns "EUR" "USD").mpr ⟨by decide, t1, by simp [txns], post "a" 10 "USD", by simp [t1], rfl⟩
+
+theorem acme_used : "ACME" ∈ usedCommodities txns "EUR" :=
+  (mem_usedCommodities txns "EUR" "ACME").mpr ⟨by decide, t2, by simp [txns], post "e" 1 "ACME", by simp [t2], rfl⟩
+
+/-- boundary: an entry exactly at the transaction instant is the one applied under txn-time (`≤`) -/
+example : ctxTimedEntry (makeCtx .txnTime txns (some "EUR") (loadDb file)) 20 "USD" = some ⟨20, "USD", d 3, "EUR"⟩ := by
+  apply RateAt_unique (loadDb file) (loadDb_sorted file) "USD" "EUR" _ _ _ (timed_rate file txns "EUR" "USD" usd_used 20)
+  rw [load_file]
+  refine ⟨by simp [db], rfl, rfl, by simp [lookupPred], ?_⟩
+  intro e' he' hb ht hp
+  simp [db] at he'
+  rcases he' with rfl | rfl | rfl | rfl | rfl | rfl | rfl <;> simp_all [lookupPred]
+
+/-- one nanosecond earlier the previous entry applies (and of the duplicate key the first one: rate 2, not 6) -/
+example : ctxTimedEntry (makeCtx .txnTime txns (some "EUR") (loadDb file)) 19 "USD" = some ⟨10, "USD", d 2, "EUR"⟩ := by
+  apply RateAt_unique (loadDb file) (loadDb_sorted file) "USD" "EUR" _ _ _ (timed_rate file txns "EUR" "USD" usd_used 19)
+  rw [load_file]
+  refine ⟨by simp [db], rfl, rfl, by simp [lookupPred], ?_⟩
+  intro e' he' hb ht hp
+  simp [db] at he'
+  rcases he' with rfl | rfl | rfl | rfl | rfl | rfl | rfl <;> simp_all [lookupPred]
+
+/-- no entry at or before the transaction (instant 9): no rate, the posting stays unchanged -/
+example : ctxTimedEntry (makeCtx .txnTime txns (some "EUR") (loadDb file)) 9 "USD" = none := by
+  apply RateAt_unique (loadDb file) (loadDb_sorted file) "USD" "EUR" _ _ _ (timed_rate file txns "EUR" "USD" usd_used 9)
+  rw [load_file]
+  intro e' he' hb ht
+  simp [db] at he'
+  rcases he' with rfl | rfl | rfl | rfl | rfl | rfl | rfl <;> simp_all [lookupPred]
+
+/-- boundary: given-time is strict (`<`): with the given instant 20 the entry at 20 is not used -/
+example : ctxFixedEntry (makeCtx (.givenTime 20) txns (some "EUR") (loadDb file)) "USD" "EUR" = some ⟨10, "USD", d 2, "EUR"⟩ := by
+  apply RateAt_unique (loadDb file) (loadDb_sorted file) "USD" "EUR" _ _ _
+    (fixed_rate file txns "EUR" (.givenTime 20) (Or.inr ⟨20, rfl⟩) "USD" usd_used 0)
+  rw [load_file]
+  refine ⟨by simp [db], rfl, rfl, by simp [lookupPred], ?_⟩
+  intro e' he' hb ht hp
+  simp [db] at he'
+  rcases he' with rfl | rfl | rfl | rfl | rfl | rfl | rfl <;> simp_all [lookupPred]
+
+/-- last-price: the latest entry overall -/
+example : ctxFixedEntry (makeCtx .lastPrice txns (some "EUR") (loadDb file)) "USD" "EUR" = some ⟨30, "USD", d 4, "EUR"⟩ := by
+  apply RateAt_unique (loadDb file) (loadDb_sorted file) "USD" "EUR" _ _ _
+    (fixed_rate file txns "EUR" .lastPrice (Or.inl rfl) "USD" usd_used 0)
+  rw [load_file]
+  refine ⟨by simp [db], rfl, rfl, by simp [lookupPred], ?_⟩
+  intro e' he' hb ht hp
+  simp [db] at he'
+  rcases he' with rfl | rfl | rfl | rfl | rfl | rfl | rfl <;> simp_all [lookupPred]
+
+/-- only a chain `ACME → GBP → EUR` exists: no rate is invented for ACME -/
+example : ctxFixedEntry (makeCtx .lastPrice txns (some "EUR") (loadDb file)) "ACME" "EUR" = none := by
+  apply RateAt_unique (loadDb file) (loadDb_sorted file) "ACME" "EUR" _ _ _
+    (fixed_rate file txns "EUR" .lastPrice (Or.inl rfl) "ACME" acme_used 0)
+  rw [load_file]
+  intro e' he' hb ht
+  simp [db] at he'
+  rcases he' with rfl | rfl | rfl | rfl | rfl | rfl | rfl <;> simp_all
+
+/-- regression witness of F10 (fixed by fixes/F10-never-convert-report-commodity.diff): with the self rate
+    `EUR → EUR` in the price file, a posting in the report commodity EUR stays unchanged under every lookup -/
+example (lk : PriceLookup) (hlk : lk ≠ .none) :
+    convertPosting (makeCtx lk txns (some "EUR") (loadDb file)).cache "EUR" t2 (post "c" 5 "EUR")
+      = .ok (unchanged (post "c" 5 "EUR")) :=
+  (convert_value file txns "EUR" lk hlk t2 (by simp [txns]) (post "c" 5 "EUR") (by simp [t2])).1 (Or.inr rfl)
+
+/-- regression witness of F18 (fixed by fixes/F18-last-price-unbounded.diff): last-price uses an entry at the
+    largest representable instant (jiff `Timestamp::MAX`) -/
+def tsMax : Int := 253402207200999999999
+example : ctxFixedEntry (makeCtx .lastPrice txns (some "EUR") (loadDb [⟨tsMax, "USD", d 5, "EUR"⟩])) "USD" "EUR"
+    = some ⟨tsMax, "USD", d 5, "EUR"⟩ := by
+  apply RateAt_unique _ (loadDb_sorted _) "USD" "EUR" _ _ _
+    (fixed_rate [⟨tsMax, "USD", d 5, "EUR"⟩] txns "EUR" .lastPrice (Or.inl rfl) "USD" usd_used 0)
+  have : loadDb [⟨tsMax, "USD", d 5, "EUR"⟩] = [⟨tsMax, "USD", d 5, "EUR"⟩] := by
+    simp [loadDb, dedup, dedupFrom]
+  rw [this]
+  refine ⟨by simp, rfl, rfl, by simp [lookupPred], ?_⟩
+  intro e' he' _ _ _
+  simp at he'; subst he'; exact Int.le_refl _
+
+end Ex
+
 end C07
 end Tackler
